@@ -641,21 +641,21 @@ fn range<'s>(input: &mut &'s str) -> PResult<Vec<BoundSet>, SemverParseError<&'s
     Parser::map(
         separated(0.., simple, space1),
         |bs: Vec<Option<BoundSet>>| {
-            bs.into_iter()
-                .flatten()
-                .fold(Vec::new(), |mut acc: Vec<BoundSet>, bs| {
-                    if let Some(last) = acc.pop() {
-                        if let Some(bound) = last.intersect(&bs) {
-                            acc.push(bound);
-                        } else {
-                            acc.push(last);
-                            acc.push(bs);
-                        }
-                    } else {
-                        acc.push(bs)
-                    }
-                    acc
-                })
+            // The comparators of one alternative all have to hold, so they are intersected.
+            // When they have no version in common the alternative is empty: it must not
+            // turn into a union of its comparators.
+            let mut comparators = bs.into_iter().flatten();
+            let mut acc = match comparators.next() {
+                Some(first) => first,
+                None => return Vec::new(),
+            };
+            for bs in comparators {
+                match acc.intersect(&bs) {
+                    Some(bound) => acc = bound,
+                    None => return Vec::new(),
+                }
+            }
+            vec![acc]
         },
     )
     .parse_next(input)
